@@ -93,7 +93,9 @@ func (h *hist) candidates() []cand {
 	}
 	if nm := h.nonMembers(true); len(nm) > 0 {
 		a := h.pick(nm)
-		if len(liveReq) > 0 {
+		// a dangling leave request (the account was dropped to none while it was pending) still counts as a
+		// pending request in the real state: RequestJoin is refused with ErrPendingRequest until it is cancelled
+		if _, dangling := h.pendRemove[a]; len(liveReq) > 0 && !dangling {
 			v := liveReq[h.r.Intn(len(liveReq))]
 			cs = append(cs, cand{5, "request-join", func() (*pendingOp, error) { return h.opRequestJoin(a, v) }})
 		}
